@@ -243,6 +243,46 @@ func c02Lib(header string) (string, bool) {
 	return strings.Join(parts, ","), true
 }
 
+// c02BalancedObj is the hypothesis of the Lean theorem scan_finds_object, decided by an independent tokenizer:
+// the text is one object — '{' first, strings closed and with every '"' and '\\' escaped (a backslash is always
+// followed by one more byte of the string), brace nesting outside strings back to 0 exactly at the last byte —
+// and holds no raw end of line.
+func c02BalancedObj(t string) bool {
+	if len(t) == 0 || t[0] != '{' {
+		return false
+	}
+	level, instr := 0, false
+	for i := 0; i < len(t); i++ {
+		c := t[i]
+		if c == '\n' || c == '\r' {
+			return false
+		}
+		if instr {
+			if c == '\\' {
+				i++
+				if i >= len(t) {
+					return false
+				}
+			} else if c == '"' {
+				instr = false
+			}
+			continue
+		}
+		switch c {
+		case '"':
+			instr = true
+		case '{':
+			level++
+		case '}':
+			level--
+			if level == 0 {
+				return i == len(t)-1
+			}
+		}
+	}
+	return false
+}
+
 // ---------------------------------------------------------------- generators
 
 var c02Hostile = []string{`"`, `\`, `{`, `}`, `;`, `=`, `>`, `@`}
@@ -683,7 +723,11 @@ func (c02) Exec(c string) (string, []Fail) {
 		for k, v := range ann {
 			s.Annotations()[k] = v
 		}
-		header := obiformats.FormatFastSeqJsonHeader(s) + string(trail)
+		info0 := obiformats.FormatFastSeqJsonHeader(s)
+		header := info0 + string(trail)
+		if len(ann) > 0 && !c02BalancedObj(info0) {
+			fail("hyp.json-balanced", "go-json output %q is not one balanced, properly escaped object on one line", info0)
+		}
 		res := hdr(header)
 		// oracle: the object the writer produced is found again, whatever follows it
 		if len(ann) > 0 {
@@ -813,6 +857,11 @@ func (c02) Exec(c string) (string, []Fail) {
 			orig = mk()
 			for _, s := range orig {
 				infos = append(infos, obiformats.FormatFastSeqJsonHeader(s))
+			}
+			for _, in := range infos {
+				if in != "" && !c02BalancedObj(in) {
+					fail("hyp.json-balanced", "go-json output %q is not one balanced, properly escaped object on one line", in)
+				}
 			}
 			text = c02Write(fm, orig)
 			return "ok"
